@@ -882,9 +882,12 @@ pub trait StoreFor<T: Storable>: Configurable + private::StoreCallbacks<T> {
     /// This is a low-level API method. You usually don't want to call this directly.
     fn resolve_id(&self, id: &str) -> Result<T::HandleType, StamError> {
         if let Some(idmap) = self.idmap() {
-            if idmap.resolve_temp_ids {
+            if idmap.resolve_temp_ids && id.starts_with(T::temp_id_prefix()) {
+                //a temporary ID only resolves to an existing item of this very type
                 if let Some(handle) = resolve_temp_id(id) {
-                    return Ok(T::HandleType::new(handle));
+                    if let Some(Some(_)) = self.store().get(handle) {
+                        return Ok(T::HandleType::new(handle));
+                    }
                 }
             }
             if let Some(handle) = idmap.data.get(id) {
@@ -1820,7 +1823,7 @@ pub(crate) fn resolve_temp_id(id: &str) -> Option<usize> {
             if !x.is_uppercase() {
                 return None;
             }
-            return Some(id[2..].parse().ok()?);
+            return Some(iter.as_str().parse().ok()?);
         }
     }
     None
